@@ -276,6 +276,9 @@ def build():
     ]
     plan.trusted += ["pyvc AST->SMT translation (cross-checked against CPython)", "z3 5.1.0 (quantified VCs: MBQI/E-matching)", "cvc5 1.0.3"]
     plan.level = "proof"
+    for c_ in plan.targets:
+        if getattr(c_, "search", None) is None:
+            c_.search = lambda plan_, c: {"custom": "search_collections", "native_module": plan_.native_module}
     return plan
 
 
